@@ -742,8 +742,10 @@ def gen_poly(rng, n, fname='bls12_381_fr'):
                 pool_e = [x for x in PS_EQ + PS_DIFF + [(33, 34), (32, 36)] if set(x) <= SPARSE_ONLY]
                 kind = 'mixed'
                 continue
-            if set(e) & P_FFT and ca and cb and max(need - 1, len(ca) if 12 in e else 0) > (1 << twoad):
+            if set(e) & (P_FFT - {12}) and ca and cb and need - 1 > (1 << twoad):
                 continue                              # toy field not smooth enough for this product
+            if 12 in e and len(ca) > (1 << twoad):
+                continue                              # p * [1] needs a domain of size len p
             if e == (25, 0) and not cb:
                 e = (26, 11)                          # (p*q)/q is only p for q != 0
             break
